@@ -524,6 +524,11 @@ func runC07(c *vk.Ctx) {
 				qs := make([]*model.Q, nq)
 				for k := range qs {
 					qs[k] = model.GenQuery(r, co, model.QueryOpts{Kinds: kinds}, depth)
+					// wide should / must-not lists (> 10 clauses: heap disjunction), with composite clauses, under a must
+					if (i%4 == 1 && k%4 == 3) || (i%4 == 0 && k%10 == 7) {
+						qs[k] = model.GenWideQuery(r, co, model.QueryOpts{Kinds: []string{"term", "term", "kwterm", "matchphrase", "prefix"}})
+						c.Event("wide_disjunction_queries", 1)
+					}
 				}
 				dirKind := "mem"
 				if i%3 == 0 {
